@@ -9,6 +9,8 @@
 (*   begin, el, vote, ... the events of the relayer-membership histories (arbitrary decodable add /   *)
 (*           remove request lists over many blocks and elections, see Trace_Relayer): here they only  *)
 (*           pass; what counts is that none of these histories contains a `halt`                       *)
+(*   (others) the events of bridge and locking histories under heavy load (backlogs beyond every      *)
+(*           per-block cap): they only pass too; a `halt` or a dead node is what is looked for         *)
 (* A crash of the node kills the driver process; the check reports it from the input journal.          *)
 EXTENDS Naturals, Sequences, Json, TLC
 Trace == ndJsonDeserialize("trace.ndjson")
@@ -18,6 +20,7 @@ HistoryEvents == {"begin", "el", "vote", "verify", "newvoter", "accept", "nonvot
 Ev == Trace[l]
 Next == /\ l <= Len(Trace)
         /\ \/ Ev.ev \in {"init", "unbuildable"} \cup HistoryEvents
+           \/ Ev.ev \notin {"input", "block", "halt"}      \* events of the heavy-load bridge / locking histories: they only pass
            \/ /\ Ev.ev = "input"
               /\ ~Ev.errored
               /\ Ev.kind = "proposal/garbage" => Ev.code = 1
